@@ -65,10 +65,13 @@ class World:
             return a.ChangingIndex(c["idx"], (7.5, c["u"]))
         if op == "IndexAsScalar":
             return a.IndexAsScalar(c["idx"], q(c["u"]))
-        if op == "SetImage":
-            return self.curve.SetImage(Array([float(i) for i in range(c["n"])], "m"))
-        if op == "SetDomain":
-            return self.curve.SetDomain(Array([float(i) for i in range(c["n"])], "s"))
+        if op in ("SetImage", "SetDomain"):
+            import numpy
+            flat = [float(i) for i in range(c["n"])]
+            vals_ = flat if c.get("form", "") == "" else [(x, x + 0.5) for x in flat]
+            if c.get("form") == "points2d":
+                vals_ = numpy.array(vals_, dtype=float).reshape(c["n"], 2)
+            return self.curve.SetImage(Array(vals_, "m")) if op == "SetImage" else self.curve.SetDomain(Array(vals_, "s"))
         raise KeyError(op)
 
     def snapshot(self):
